@@ -168,15 +168,29 @@ func fieldName(x *ssa.FieldAddr) string {
 // describe gives a stable, human-readable path for a value (used in
 // obligation names so that they survive unrelated edits).
 func (e *FuncEnc) describe(v ssa.Value) string {
-	return describeDepth(v, 0)
+	return e.describeDepth(v, 0)
 }
 
-func describeDepth(v ssa.Value, d int) string {
+func (e *FuncEnc) describeDepth(v ssa.Value, d int) string {
 	if d > 4 {
 		return "_"
 	}
 	switch x := v.(type) {
 	case *ssa.Parameter:
+		// inside an unfolded callee the parameter stands for the caller's argument
+		if e != nil {
+			for i := len(e.inlineStack) - 1; i >= 0; i-- {
+				fr := e.inlineStack[i]
+				if fr.fn != x.Parent() {
+					continue
+				}
+				for j, p := range fr.fn.Params {
+					if p == x && j < len(fr.argVals) && fr.argVals[j] != nil {
+						return e.describeDepth(fr.argVals[j], d+1)
+					}
+				}
+			}
+		}
 		return x.Name()
 	case *ssa.FreeVar:
 		return x.Name()
@@ -188,44 +202,44 @@ func describeDepth(v ssa.Value, d int) string {
 		}
 		return "new"
 	case *ssa.FieldAddr:
-		return describeDepth(x.X, d+1) + "." + fieldName(x)
+		return e.describeDepth(x.X, d+1) + "." + fieldName(x)
 	case *ssa.Field:
 		st := x.X.Type().Underlying().(*types.Struct)
-		return describeDepth(x.X, d+1) + "." + st.Field(x.Field).Name()
+		return e.describeDepth(x.X, d+1) + "." + st.Field(x.Field).Name()
 	case *ssa.UnOp:
 		if x.Op == token.MUL {
-			return describeDepth(x.X, d+1)
+			return e.describeDepth(x.X, d+1)
 		}
 	case *ssa.IndexAddr:
-		return describeDepth(x.X, d+1) + "[]"
+		return e.describeDepth(x.X, d+1) + "[]"
 	case *ssa.Index:
-		return describeDepth(x.X, d+1) + "[]"
+		return e.describeDepth(x.X, d+1) + "[]"
 	case *ssa.Lookup:
-		return describeDepth(x.X, d+1) + "[]"
+		return e.describeDepth(x.X, d+1) + "[]"
 	case *ssa.Extract:
-		return describeDepth(x.Tuple, d+1) + fmt.Sprintf("#%d", x.Index)
+		return e.describeDepth(x.Tuple, d+1) + fmt.Sprintf("#%d", x.Index)
 	case *ssa.Call:
 		if f := x.Call.StaticCallee(); f != nil {
 			return f.Name() + "()"
 		}
 		if x.Call.IsInvoke() {
-			return describeDepth(x.Call.Value, d+1) + "." + x.Call.Method.Name() + "()"
+			return e.describeDepth(x.Call.Value, d+1) + "." + x.Call.Method.Name() + "()"
 		}
-		return describeDepth(x.Call.Value, d+1) + "()"
+		return e.describeDepth(x.Call.Value, d+1) + "()"
 	case *ssa.Phi:
 		if x.Comment != "" {
 			return x.Comment
 		}
 	case *ssa.ChangeType:
-		return describeDepth(x.X, d+1)
+		return e.describeDepth(x.X, d+1)
 	case *ssa.ChangeInterface:
-		return describeDepth(x.X, d+1)
+		return e.describeDepth(x.X, d+1)
 	case *ssa.MakeInterface:
-		return describeDepth(x.X, d+1)
+		return e.describeDepth(x.X, d+1)
 	case *ssa.Slice:
-		return describeDepth(x.X, d+1) + "[:]"
+		return e.describeDepth(x.X, d+1) + "[:]"
 	case *ssa.TypeAssert:
-		return describeDepth(x.X, d+1) + ".(T)"
+		return e.describeDepth(x.X, d+1) + ".(T)"
 	case *ssa.Next:
 		return "next"
 	case *ssa.Const:
@@ -243,7 +257,8 @@ func (e *FuncEnc) encodeAlloc(x *ssa.Alloc) {
 	// pointer / slice base carried around the loop (the static allocation times
 	// alone do not say so for objects made in earlier iterations)
 	if e.curBlock != nil {
-		for h, li := range e.loops {
+		for _, li := range e.loopList() {
+			h := li.header
 			if !li.body[e.curBlock] {
 				continue
 			}
